@@ -627,6 +627,54 @@ func init() {
 func init() {
 	// ties whose deciding non-zero tail digit sits around the 800-digit capacity of the slow path
 	suites["c04edge"] = func(e *emitter, r *rng, thorough bool) {
+		// digit strings next to the cutoffs of the CURRENT tree's leftcheats table, placed so that the
+		// decimal path's first left shift (by powtab[-dp], or 27 for dp <= -10) compares exactly these
+		// digits with the cutoff: a wrong cutoff digit changes the digit count of the product
+		if g := loadGen(); g != nil {
+			ks := map[int]int{27: 12} // shift amount -> number of leading zeros after "0."
+			for i, k := range g.Tables.Powtab {
+				if i > 0 {
+					ks[k] = i
+				}
+			}
+			for k, zeros := range ks {
+				if k <= 0 || k >= len(g.Tables.Leftcheats) {
+					continue
+				}
+				c := g.Tables.Leftcheats[k].C
+				cv, ok := new(big.Int).SetString(c, 10)
+				if !ok {
+					continue
+				}
+				var ds []string
+				for _, dl := range []int64{-2, -1, 0, 1, 2} {
+					ds = append(ds, new(big.Int).Add(cv, big.NewInt(dl)).String())
+				}
+				for n := 1; n < len(c); n++ {
+					pv, _ := new(big.Int).SetString(c[:n], 10)
+					ds = append(ds, c[:n], new(big.Int).Add(pv, big.NewInt(1)).String())
+					if pv.Sign() > 0 {
+						ds = append(ds, new(big.Int).Sub(pv, big.NewInt(1)).String())
+					}
+					// the cutoff with one digit lowered / raised at position n
+					for _, d := range []int{-1, 1} {
+						b := []byte(c)
+						if int(b[n]-'0')+d >= 0 && int(b[n]-'0')+d <= 9 {
+							b[n] = byte(int(b[n]) + d)
+							ds = append(ds, string(b))
+						}
+					}
+				}
+				for _, d := range ds {
+					for _, lit := range []string{"0." + strings.Repeat("0", zeros) + d, "-0." + strings.Repeat("0", zeros) + d + "e-290", d + "e-" + fmt.Sprint(zeros+len(d)+300)} {
+						h := hs([]byte(lit))
+						e.emit("f64 %s", h)
+						e.emit("fp_parse %s", h)
+						e.emit("fp_dec %s", h)
+					}
+				}
+			}
+		}
 		halves := []string{"9007199254740993", "9007199254740995", "4503599627370496.5", "4503599627370497.5", "18014398509481986", "1.5", "2.5", "0.5"}
 		for _, h := range halves {
 			sig := len(strings.ReplaceAll(strings.TrimLeft(h, "0."), ".", ""))
